@@ -141,6 +141,18 @@ def opC14Params (j : Json) : Except String Json := do
     match (← p.getArr?).toList with
     | [Json.str n, Json.str t] => pure (⟨n.toList, t.toList⟩ : Param)
     | _ => throw "bad param"
+  -- optional "sig": [[[segment, …], type], …] — the method signature as paths; then the flattened parameters are derived
+  let res : List Char → Bool := fun s => decide (s ∈ GapicModel.Pinned.reservedNames.map String.toList)
+  let fl ← match j.getObjVal? "sig" with
+    | .ok (Json.arr es) => do
+      let sig ← es.toList.mapM fun e => do
+        match (← e.getArr?).toList with
+        | [Json.arr segs, Json.str t] => do
+          let p ← segs.toList.mapM fun x => do pure (← x.getStr?).toList
+          pure (p, t.toList)
+        | _ => throw "bad sig entry"
+      pure (flattenedParams res sig)
+    | _ => pure fl
   pure (Json.mkObj [("params", jarr ((metadataParams cs it fl).map fun p => jarr [jstr p.name, jstr p.type]))])
 
 /-- `result_type` of one metadata entry: {"void", "ss", "lro", "paged", "cs", "out_type"} -/
